@@ -16,7 +16,7 @@ ALL = ["C%02d" % i for i in range(1, 21)]
 CHECKS = {
     "C17": dict(
         level="model_checking", engine="xstate", design_ref="DESIGN.md §5 C17",
-        technique="explicit-state BFS over all operation histories (bounded depth, exact state keys) on the real RollingCounter/RatioCounter vs a timestamp-list reference",
+        technique="explicit-state BFS over all operation histories (bounded depth, exact state keys) on the real RollingCounter/RatioCounter vs a timestamp-list reference; plus overlap scenarios: stateless DFS over all schedules (preemption-bounded or unbounded as stated) of 2-3 calls in flight on one instance, race build, the property's oracle at quiescence",
         text="Every history of Inc/Count/Advance up to the depth bound, for 120 (buckets, resolution, clock base) configurations, is executed on the real counter; in every reached state Count()/Ratio() must lie between the sums of the reference increments inside (N-1)r and N*r.",
         note="frozen clock, one instant per API call (A2); parameters limited to the listed alphabet (A4)",
         parts=[dict(bin="vh", part="c17", shards=16, budget=dict(quick=100, thorough=1500)),
@@ -41,7 +41,7 @@ CHECKS["C01"] = dict(
 
 CHECKS["C02"] = dict(
     level="model_checking", engine="xstate+sched", design_ref="DESIGN.md §5 C02",
-    technique="explicit-state BFS over add/update/remove/request histories on the real RoundRobin and Rebalancer vs an ordered-map reference + DFS over interleavings of administration racing with requests under the race detector",
+    technique="explicit-state BFS over add/update/remove/request histories on the real RoundRobin and Rebalancer vs an ordered-map reference + DFS over interleavings of administration racing with requests under the race detector; plus overlap scenarios: stateless DFS over all schedules (preemption-bounded or unbounded as stated) of 2-3 calls in flight on one instance, race build, the property's oracle at quiescence",
     text="All histories up to the depth bound over a URL alphabet with identity collisions (scheme/host/path/userinfo/query variants), weights {default,0,2}, passive and URL-rewriting handlers, with/without sticky cookies, through RoundRobin and through Rebalancer; in every state Servers()/ServerWeight() equal the reference incl. stored URL strings and a full rotation hits exactly the positive-weight members; empty/all-zero pools refuse repeatedly. Concurrent part: interval oracle for Remove/Upsert racing with requests.",
     note="pool size <= 3, depth-bounded histories (A4); sequential consistency between scheduling points, races reported by the detector (A3)",
     parts=[dict(bin="vh", part="c02", shards=16, budget=dict(quick=100, thorough=1500)),
@@ -50,7 +50,7 @@ CHECKS["C02"] = dict(
 
 CHECKS["C03"] = dict(
     level="model_checking", engine="xstate", design_ref="DESIGN.md §5 C03",
-    technique="explicit-state BFS to fixpoint (relative-time state keys) plus exact-key depth-bounded BFS on the real TokenLimiter vs an exact-rational leaky-bucket debt monitor",
+    technique="explicit-state BFS to fixpoint (relative-time state keys) plus exact-key depth-bounded BFS on the real TokenLimiter vs an exact-rational leaky-bucket debt monitor; plus overlap scenarios: stateless DFS over all schedules (preemption-bounded or unbounded as stated) of 2-3 calls in flight on one instance, race build, the property's oracle at quiescence",
     text="For each rate set (integral and non-integral time per token, burst up to 5x average, 2s period, multi-rate) and clock phase, every history of Req(amount)/Advance(d) over the alphabet is explored on the real limiter to a fixpoint of the relative-time state space (histories of unbounded length, incl. traffic sustained beyond the entry lifetime); the monitor debt D<=burst+1 is equivalent to the interval bound.",
     note="frozen clock, one instant per call (A2); translation invariance assumed for the relative keys and cross-checked by the exact-key search; one source (multi-source behaviour is C14)",
     parts=[dict(bin="vh", part="c03", shards=16, gang=True, budget=dict(quick=100, thorough=1500)),
@@ -59,7 +59,7 @@ CHECKS["C03"] = dict(
            dict(bin="vsched-race", part="ovl", shards=4, budget=dict(quick=100, thorough=1500))])
 CHECKS["C13"] = dict(
     level="model_checking", engine="xstate", design_ref="DESIGN.md §5 C13",
-    technique="same reachable-state graph as C03; differential continuation probes (real code against itself) from every reachable state",
+    technique="same reachable-state graph as C03; differential continuation probes (real code against itself) from every reachable state; plus overlap scenarios: stateless DFS over all schedules (preemption-bounded or unbounded as stated) of 2-3 calls in flight on one instance, race build, the property's oracle at quiescence",
     text="From every reachable limiter state and every rejected request q: probe outcomes after q (once and three times) equal those without q for every amount (nothing debited, also multi-rate); retry after exactly X-Retry-In is admitted; an idle source regains its burst after burst*(period/average); an over-burst request is refused with an error and no delay.",
     note="as C03",
     parts=[dict(bin="vh", part="c03", shards=16, gang=True, budget=dict(quick=100, thorough=1500)),
@@ -107,7 +107,7 @@ CHECKS["C09"] = dict(
 
 CHECKS["C10"] = dict(
     level="model_checking", engine="xstate", design_ref="DESIGN.md §5 C10",
-    technique="explicit-state BFS to fixpoint on the real Rebalancer(RoundRobin) with scripted meters and a frozen clock; invariants per transition and bounded-liveness continuations from every reachable state",
+    technique="explicit-state BFS to fixpoint on the real Rebalancer(RoundRobin) with scripted meters and a frozen clock; invariants per transition and bounded-liveness continuations from every reachable state; plus overlap scenarios: stateless DFS over all schedules (preemption-bounded or unbounded as stated) of 2-3 calls in flight on one instance, race build, the property's oracle at quiescence",
     text="Every reachable (membership, configured weights, effective weights, timer) state over rating vectors {0,0.4,1}^3, readiness, advances {backoff/2, backoff+eps}, Upsert/Remove with weights from the alphabet, back-off {1s,10s}: weights within [1,max(4096,configured)], adjustments at least one back-off apart, no outlier share increase, configured weights restored by every membership change; from every state a persistent outlier loses share within two back-off rounds unless all others are at the cap, and equal ratings restore configured proportions within six adjustments.",
     note="scripted meters through the public RebalancerMeter option; rotation position projected out of the key; pools of <= 3 servers (A4)",
     parts=[dict(bin="vh", part="c10", shards=16, gang=True, budget=dict(quick=240, thorough=1500)),
@@ -116,7 +116,7 @@ CHECKS["C10"] = dict(
 
 CHECKS["C19"] = dict(
     level="exploration", engine="enum", design_ref="DESIGN.md §5 C19",
-    technique="bounded-exhaustive input enumeration against the real extractors (all address strings of the stated families, all short strings over a punctuation alphabet, all pairs)",
+    technique="bounded-exhaustive input enumeration against the real extractors (all address strings of the stated families, all short strings over a punctuation alphabet, all pairs); plus overlap scenarios: stateless DFS over all schedules (preemption-bounded or unbounded as stated) of 2-3 calls in flight on one instance, race build, the property's oracle at quiescence",
     text="Every IPv4 quad over {0,1,10,127,255}^4 x ports, IPv6 addresses x zone forms x ports in net/http's bracketed form, all strings of length <= 5 over {1 a : [ ] . %}, all well-formed pairs for 'same token iff same address', Host and header name/value case variants, and a list of unsupported variable names.",
     note="small-scope: address components and strings from the listed alphabets (A4); zone may be kept or stripped",
     parts=[dict(bin="vh", part="c19", shards=1),
@@ -125,7 +125,7 @@ CHECKS["C19"] = dict(
 
 CHECKS["C11"] = dict(
     level="exploration", engine="enum", design_ref="DESIGN.md §5 C11",
-    technique="bounded-exhaustive enumeration of server URLs x cookie encodings x cookie mutations x pool-change sequences on the real balancers (cookie round trip through net/http)",
+    technique="bounded-exhaustive enumeration of server URLs x cookie encodings x cookie mutations x pool-change sequences on the real balancers (cookie round trip through net/http); plus overlap scenarios: stateless DFS over all schedules (preemption-bounded or unbounded as stated) of 2-3 calls in flight on one instance, race build, the property's oracle at quiescence",
     text="Full product of 896 (thorough: more) server URLs x 22 encodings (raw, hashed, AES-GCM with/without ttl, all fallback chains) x {RoundRobin, Rebalancer}: an intact cookie pins the client to its server whatever the rotation state and weights; absent, expired, removed-server cookies are balanced among current members with a fresh working cookie. For a subset of URLs every truncation, every single-bit flip, re-encodings and foreign-key cookies, and every pool-change sequence up to length 3.",
     note="frozen clock; cookie values pass through http.SetCookie / Response.Cookies / Request.AddCookie exactly as in a real exchange",
     parts=[dict(bin="vh", part="c11", shards=16, budget=dict(quick=100, thorough=1500)),
@@ -134,7 +134,7 @@ CHECKS["C11"] = dict(
 
 CHECKS["C06"] = dict(
     level="fault_enumeration", engine="enum", design_ref="DESIGN.md §5 C06",
-    technique="bounded-exhaustive enumeration of request shapes x per-attempt handler scripts (bytes consumed, request mutation, failure) on the real buffer; requests parsed by http.ReadRequest from raw bytes",
+    technique="bounded-exhaustive enumeration of request shapes x per-attempt handler scripts (bytes consumed, request mutation, failure) on the real buffer; requests parsed by http.ReadRequest from raw bytes; plus overlap scenarios: stateless DFS over all schedules (preemption-bounded or unbounded as stated) of 2-3 calls in flight on one instance, race build, the property's oracle at quiescence",
     text="Full product of memory thresholds, body lengths around them (up to multi-megabyte in thorough), framings, methods, header sets, retry depths 1-3 and, for each failed attempt, how much of the body it consumed and how it mutated the request it was handed: every invocation must see the client's method, URL, headers, true Content-Length, no chunked marker and the body from the first byte.",
     note="handler called through buffer.ServeHTTP with a recorder; the request object is exactly what net/http's server parser produces",
     parts=[dict(bin="vh", part="c06", shards=16, budget=dict(quick=100, thorough=1500)),
@@ -142,7 +142,7 @@ CHECKS["C06"] = dict(
            dict(bin="vsched-race", part="ovl", shards=4, budget=dict(quick=100, thorough=1500))])
 CHECKS["C07"] = dict(
     level="fault_enumeration", engine="enum", design_ref="DESIGN.md §5 C07",
-    technique="program enumeration (retry expressions from the grammar) x attempt-status sequences against a reference evaluator, plus response-shape enumeration through a real loopback server and raw TCP client",
+    technique="program enumeration (retry expressions from the grammar) x attempt-status sequences against a reference evaluator, plus response-shape enumeration through a real loopback server and raw TCP client; plus overlap scenarios: stateless DFS over all schedules (preemption-bounded or unbounded as stated) of 2-3 calls in flight on one instance, race build, the property's oracle at quiescence",
     text="Every generated retry expression x method x 31 status sequences: invocation count equals the reference reading of the expression capped at 11, and the client gets the final attempt's status/headers/body only. Every response shape (status incl. implicit, header sets, body chunkings, with/without a discarded attempt) over real HTTP: exactly one well-formed response equal to the final attempt's; implicit status => 200; empty body => empty body.",
     note="implicit-status attempts may be read as code 0 or 200 by the expression; 30s watchdog re-run 5x",
     parts=[dict(bin="vh", part="c07", shards=16, budget=dict(quick=100, thorough=1500)),
@@ -150,7 +150,7 @@ CHECKS["C07"] = dict(
            dict(bin="vsched-race", part="ovl", shards=4, budget=dict(quick=100, thorough=1500))])
 CHECKS["C15"] = dict(
     level="fault_enumeration", engine="enum", design_ref="DESIGN.md §5 C15",
-    technique="bounded-exhaustive enumeration of sizes around the memory threshold and the maximum x framing / write pattern x method x status x retries on the real buffer with a private TMPDIR inspected after every exchange",
+    technique="bounded-exhaustive enumeration of sizes around the memory threshold and the maximum x framing / write pattern x method x status x retries on the real buffer with a private TMPDIR inspected after every exchange; plus overlap scenarios: stateless DFS over all schedules (preemption-bounded or unbounded as stated) of 2-3 calls in flight on one instance, race build, the property's oracle at quiescence",
     text="Requests over the maximum (declared or chunked) get 413 and never reach the handler; responses over the maximum become an error status with none of the handler's bytes; after every exchange (success, error, over a limit, after retries, bodiless response kinds) the private temporary directory is empty.",
     note="spill files are observed in $TMPDIR of the worker process; request spills are unlinked at creation by multibuf",
     parts=[dict(bin="vh", part="c15", shards=16, budget=dict(quick=100, thorough=1500)),
@@ -172,7 +172,7 @@ CHECKS["C16"] = dict(
 
 CHECKS["C20"] = dict(
     level="exploration", engine="enum", design_ref="DESIGN.md §5 C20",
-    technique="exhaustive enumeration of middleware stacks (programs) x handler behaviours over a real net/http server and raw TCP client, differential against the bare handler, plus one intervening configuration per stack position",
+    technique="exhaustive enumeration of middleware stacks (programs) x handler behaviours over a real net/http server and raw TCP client, differential against the bare handler, plus one intervening configuration per stack position; plus all interleavings of overlapping requests on the connection limiter (429 only while the source is at its limit)",
     text="All 584 stacks of depth <= 3 (37448 of depth <= 5 in thorough) over the eight middlewares x 39 handler behaviours: handler invoked exactly once, same status, end-to-end headers and body bytes as the bare handler, Hijacker available (and used), Flusher available and a flushed chunk seen by the client before the handler continues (except below a buffer); for every position that can intervene: documented status, one complete response, zero handler invocations.",
     note="frozen clock; framing headers chosen by net/http not compared; 5s wait for a flushed chunk only matters when flushing is broken",
     parts=[dict(bin="vh", part="c20", shards=16, budget=dict(quick=120, thorough=1500)),
